@@ -228,7 +228,7 @@ def lean_batch(reqs, shards=None, timeout=3000):
         return []
     n = len(reqs)
     if shards is None:
-        shards = 1 if n < 4000 else min(int(os.environ.get('VERIF_JOBS', '12')), max(1, n // 3000))
+        shards = (1 if n < 400 else 4) if n < 4000 else min(int(os.environ.get('VERIF_JOBS', '12')), max(1, n // 3000))
     size = (n + shards - 1) // shards
     procs = []
     for s in range(shards):
